@@ -7,6 +7,7 @@ import JaxVerif.Model.Gensym
 import JaxVerif.Spec.Calls
 import JaxVerif.Generated.Skeleton
 import JaxVerif.Lemmas.Wrapper
+import JaxVerif.Lemmas.Sig
 
 namespace JV
 
@@ -27,6 +28,17 @@ theorem C07_scope_wellformed (fnName : String) (paramNames : List String) (outpu
     let (ps, scope) := generatedNames fnName paramNames output
     ps.Nodup ∧ scope.Nodup ∧ (∀ x ∈ scope.drop 1, x ∉ ps) :=
   generatedNames_wellformed fnName paramNames output hnd
+
+/-- **the synthesised checking function binds arguments exactly as the original does**: the
+    parameter list `_make_fn_with_signature` renders (positional-only group and `/`, positional-or-
+    keyword group, `*name` or a bare `*` when keyword-only parameters follow, keyword-only group with
+    the fresh output parameter appended, `**name`), read back the way Python reads a parameter list,
+    is the original signature — every parameter with its own name, kind and default-presence, in
+    order — plus that one keyword-only parameter. So a call binds to the one iff it binds to the
+    other, to the same parameters. -/
+theorem C07_same_signature (c : CSig) (h : c.WF) (extra : List SParam) (he : ∀ p ∈ extra, p.kind = .kwOnly) :
+    parsePieces (renderSig c.toList extra) = c.pos ++ c.pok ++ c.vp ++ (c.key ++ extra) ++ c.vk :=
+  parse_render c h extra he
 
 /-- **exactly once / not at all**: on a new-style call that binds, the body starts exactly once
     when the parameter pass accepts (whatever happens afterwards) and not at all when it rejects -/
@@ -58,6 +70,9 @@ theorem C07_result_passthrough (sk : Skel) (w : WrapSkel) (hw : w.disableTestFir
 theorem C07_generated_good : Generated.implFnCalls = 1 := by decide
 
 /-! non-vacuity: parameters named like the generated identifiers -/
+example : parsePieces (renderSig [⟨"a", .posOnly, false⟩, ⟨"b", .posOrKw, true⟩, ⟨"k", .kwOnly, false⟩, ⟨"kw", .varKw, false⟩] [⟨"ret0", .kwOnly, false⟩]) =
+    [⟨"a", .posOnly, false⟩, ⟨"b", .posOrKw, true⟩, ⟨"k", .kwOnly, false⟩, ⟨"ret0", .kwOnly, false⟩, ⟨"kw", .varKw, false⟩] := by decide
+example : renderSig [⟨"b", .posOrKw, false⟩] [⟨"ret0", .kwOnly, false⟩] = [.param ⟨"b", .posOrKw, false⟩, .star, .param ⟨"ret0", .kwOnly, false⟩] := by decide
 example : (generatedNames "T0" ["T0", "default0", "ret0", "T1"] true).1 = ["T0", "default0", "ret0", "T1", "ret1"] := by decide
 example : gensym ["T0", "T1", "x"] "T" = "T2" := by decide
 
